@@ -10,7 +10,8 @@ use std::rc::Rc;
 
 use serde_json::{json, Value};
 use vf_core::Digest;
-use write_fonts::{validate::Validate, validate::ValidationCtx, FontWrite, TableWriter};
+use write_fonts::tables::layout::{Lookup, LookupFlag, LookupSubtable, LookupType};
+use write_fonts::{validate::Validate, validate::ValidationCtx, FontWrite, OffsetMarker, TableWriter};
 
 #[derive(Clone, Debug, PartialEq, Eq)]
 pub struct Link {
@@ -37,7 +38,15 @@ pub struct Spec {
     pub nodes: Vec<NodeSpec>,
     payload: Vec<Rc<Vec<u8>>>,
     rep_cache: std::cell::OnceCell<Vec<usize>>,
+    /// per node: `Some((is_gsub, lookup type))` when the object is handed to the compiler as a
+    /// GSUB / GPOS *lookup* (`FontWrite::table_type`), so that the compiler may promote it to an
+    /// extension lookup. Empty = no typed nodes. The first two payload bytes of a typed node are
+    /// its lookup type: the node is written as a real `layout::Lookup` (type, flag 0, count, offsets).
+    pub lookup_types: Vec<Option<(bool, u16)>>,
 }
+
+pub const GSUB_EXT: u16 = 7;
+pub const GPOS_EXT: u16 = 9;
 
 /// Payload of node `id` with total size `size`: a 4-byte header (id, 24-bit
 /// length) followed by a filler in which every byte depends on id and position.
@@ -87,13 +96,72 @@ impl Spec {
                 .map(|(i, n)| Rc::new(make_payload(i, n.size)))
                 .collect(),
         };
-        Spec { nodes, payload, rep_cache: Default::default() }
+        Spec { nodes, payload, rep_cache: Default::default(), lookup_types: vec![] }
+    }
+
+    /// Mark nodes as GSUB / GPOS lookups (see `lookup_types`); writes the type into the
+    /// first two payload bytes.
+    pub fn with_lookup_types(mut self, types: Vec<Option<(bool, u16)>>) -> Spec {
+        for (i, t) in types.iter().enumerate() {
+            if let Some((_, ty)) = t {
+                if let Some(p) = self.payload.get_mut(i) {
+                    // the bytes `layout::Lookup` writes: lookupType, lookupFlag 0, subTableCount
+                    let n = self.nodes[i].links.len() as u16;
+                    let v = Rc::make_mut(p);
+                    if v.len() >= 6 {
+                        v[..6].copy_from_slice(&[(*ty >> 8) as u8, *ty as u8, 0, 0, (n >> 8) as u8, n as u8]);
+                    }
+                }
+            }
+        }
+        self.lookup_types = types;
+        self.rep_cache = Default::default();
+        self
+    }
+
+    pub fn lookup_type(&self, idx: usize) -> Option<(bool, u16)> {
+        self.lookup_types.get(idx).copied().flatten()
+    }
+
+    pub fn has_typed_nodes(&self) -> bool {
+        self.lookup_types.iter().any(|t| t.is_some())
     }
 
     /// Generator self-check (harness invariant, not a property of the library).
     pub fn well_formed(&self) -> Result<(), String> {
         if self.nodes.is_empty() {
             return Err("empty".into());
+        }
+        if !self.lookup_types.is_empty() {
+            if self.lookup_types.len() != self.nodes.len() {
+                return Err("lookup_types length".into());
+            }
+            // all lookups hang under exactly one parent (the lookup list), carry their type in
+            // the first two bytes, and have plain 16-bit subtable links after it
+            let mut parent_of_typed: Option<usize> = None;
+            for (i, n) in self.nodes.iter().enumerate() {
+                for l in &n.links {
+                    if self.lookup_type(l.to).is_some() {
+                        if parent_of_typed.is_some_and(|p| p != i) {
+                            return Err("lookups with more than one parent".into());
+                        }
+                        parent_of_typed = Some(i);
+                    }
+                }
+                if let Some((gsub, ty)) = self.lookup_type(i) {
+                    // exactly the layout of a Lookup table without mark filtering set
+                    if n.size as usize != 6 + 2 * n.links.len() || n.links.iter().enumerate().any(|(k, l)| l.pos as usize != 6 + 2 * k || l.adj != 0 || l.width != 2) {
+                        return Err("typed node layout".into());
+                    }
+                    if ty == 0 || (gsub && (ty >= 9 || ty == GSUB_EXT)) || (!gsub && (ty >= 10 || ty == GPOS_EXT || ty == 2 || ty == 4)) {
+                        // GPOS 2 / 4 are splittable: the compiler would parse the (mock) subtable bytes
+                        return Err("lookup type not usable for a mock lookup".into());
+                    }
+                    if n.links.iter().any(|l| self.lookup_type(l.to).is_some()) {
+                        return Err("lookup links to lookup".into());
+                    }
+                }
+            }
         }
         let mut has_parent = vec![false; self.nodes.len()];
         has_parent[0] = true;
@@ -160,6 +228,13 @@ impl Spec {
                 d.u32(l.adj);
             }
         }
+        for (i, t) in self.lookup_types.iter().enumerate() {
+            if let Some((g, ty)) = t {
+                d.u32(i as u32);
+                d.u32(*g as u32);
+                d.u32(*ty as u32);
+            }
+        }
         d.finish()
     }
 
@@ -170,6 +245,10 @@ impl Spec {
             for l in &n.links {
                 links.push(json!([i, l.to, l.width as u32 * 8, l.pos, l.adj]));
             }
+        }
+        if self.has_typed_nodes() {
+            let typed: Vec<Value> = self.lookup_types.iter().enumerate().filter_map(|(i, t)| t.map(|(g, ty)| json!([i, if g { "GSUB" } else { "GPOS" }, ty]))).collect();
+            return json!({"sizes": sizes, "links_from_to_bits_pos_adj": links, "lookups_node_table_type": typed});
         }
         json!({"sizes": sizes, "links_from_to_bits_pos_adj": links})
     }
@@ -194,7 +273,20 @@ impl Spec {
                 adj: g(4)? as u32,
             });
         }
-        Some(Spec::new(nodes, None))
+        let spec = Spec::new(nodes, None);
+        if let Some(typed) = v["lookups_node_table_type"].as_array() {
+            let mut types = vec![None; spec.nodes.len()];
+            for t in typed {
+                let a = t.as_array()?;
+                let i = a.first()?.as_u64()? as usize;
+                if i >= types.len() {
+                    return None;
+                }
+                types[i] = Some((a.get(1)?.as_str()? == "GSUB", a.get(2)?.as_u64()? as u16));
+            }
+            return Some(spec.with_lookup_types(types));
+        }
+        Some(spec)
     }
 
     pub fn root(&self) -> NodeW<'_> {
@@ -364,7 +456,10 @@ impl FontWrite for NodeW<'_> {
             let pos = l.pos as usize;
             w.write_slice(&p[cur..pos]);
             let child = NodeW { spec: self.spec, idx: l.to };
-            if l.adj != 0 {
+            if let Some((g, ty)) = self.spec.lookup_type(l.to) {
+                // a lookup: handed to the compiler as a real `layout::Lookup` of that type
+                write_lookup(w, self.spec, l.to, g, ty, l.width as usize);
+            } else if l.adj != 0 {
                 // only used for links to leaf objects (see Spec::well_formed):
                 // the adjustment in force is read *after* the child has been
                 // written and is inherited by the child's own links.
@@ -376,6 +471,45 @@ impl FontWrite for NodeW<'_> {
         }
         w.write_slice(&p[cur..]);
     }
+}
+
+/// Subtable of a mock lookup: node `idx` of `spec`, written like any other node. The const
+/// parameters attach the lookup type (`LookupSubtable::TYPE`), which is how the compiler learns
+/// that the parent `layout::Lookup` is a promotable GSUB / GPOS lookup.
+pub struct MockSub<'a, const G: bool, const T: u16> {
+    spec: &'a Spec,
+    idx: usize,
+}
+
+impl<const G: bool, const T: u16> LookupSubtable for MockSub<'_, G, T> {
+    const TYPE: LookupType = if G { LookupType::Gsub(T) } else { LookupType::Gpos(T) };
+}
+
+impl<const G: bool, const T: u16> FontWrite for MockSub<'_, G, T> {
+    fn write_into(&self, w: &mut TableWriter) {
+        NodeW { spec: self.spec, idx: self.idx }.write_into(w)
+    }
+}
+
+fn write_lookup_as<const G: bool, const T: u16>(w: &mut TableWriter, spec: &Spec, idx: usize, width: usize) {
+    let lk: Lookup<MockSub<G, T>> = Lookup {
+        lookup_flag: LookupFlag::empty(),
+        subtables: spec.nodes[idx].links.iter().map(|l| OffsetMarker::new(MockSub { spec, idx: l.to })).collect(),
+        mark_filtering_set: None,
+    };
+    w.write_offset(&lk, width);
+}
+
+fn write_lookup(w: &mut TableWriter, spec: &Spec, idx: usize, gsub: bool, ty: u16, width: usize) {
+    macro_rules! go {
+        ($($g:literal $t:literal),*) => {
+            match (gsub, ty) {
+                $(($g, $t) => write_lookup_as::<$g, $t>(w, spec, idx, width),)*
+                _ => {} // excluded by Spec::well_formed
+            }
+        };
+    }
+    go!(true 1, true 2, true 3, true 4, true 5, true 6, true 8, false 1, false 3, false 5, false 6, false 7, false 8);
 }
 
 impl Validate for NodeW<'_> {
@@ -396,6 +530,15 @@ pub struct Resolved {
     pub max_off16: u32,
     pub max_off24: u32,
     pub max_off32: u32,
+    /// typed (lookup) placements found promoted to extension lookups / left as they were
+    pub lookups_promoted: usize,
+    pub lookups_not_promoted: usize,
+    /// distinct 8-byte extension records reached
+    pub extension_records: usize,
+    /// promoted lookups whose subtable is also referenced by a lookup of another type
+    pub promoted_sharing_across_types: usize,
+    /// some object is placed both below a promoted and below a non-promoted lookup
+    pub shared_between_promoted_and_not: bool,
 }
 
 #[derive(Clone, Debug)]
@@ -415,6 +558,8 @@ pub fn resolve(spec: &Spec, out: &[u8]) -> Result<Resolved, Bad> {
     let mut stack: Vec<(usize, u64, usize, usize)> = vec![(0, 0, usize::MAX, 0)]; // node,pos,parent,link#
     let mut r = Resolved::default();
     let mut covered: u64 = 0;
+    let mut ext_seen: HashSet<usize> = HashSet::new();
+    let mut promoted_node: Vec<Option<bool>> = vec![None; spec.nodes.len()];
     while let Some((idx, pos, par, li)) = stack.pop() {
         if !seen.insert((idx, pos)) {
             continue;
@@ -429,8 +574,30 @@ pub fn resolve(spec: &Spec, out: &[u8]) -> Result<Resolved, Bad> {
             ));
         }
         let o = &out[pos as usize..end as usize];
+        // a lookup: the first two bytes are its type, which the compiler may have replaced by
+        // the extension type of its table (promotion); anything else is a wrong object
+        let typed = spec.lookup_type(idx);
+        let mut promoted = false;
+        if let Some((gsub, ty)) = typed {
+            let found = u16::from_be_bytes([o[0], o[1]]);
+            let ext = if gsub { GSUB_EXT } else { GPOS_EXT };
+            if found == ext {
+                promoted = true;
+                r.lookups_promoted += 1;
+            } else if found == ty {
+                r.lookups_not_promoted += 1;
+            } else {
+                return Err(bad(
+                    "lookup-type-changed",
+                    json!({"node": idx, "at": pos, "lookup_type_written": ty, "lookup_type_found": found, "extension_type": ext, "via_parent": par as i64, "via_link": li}),
+                ));
+            }
+        }
+        if typed.is_some() {
+            promoted_node[idx] = Some(promoted);
+        }
         // compare the payload outside the offset fields
-        let mut cur = 0usize;
+        let mut cur = if typed.is_some() { 2usize } else { 0usize };
         let cmp = |a: usize, b: usize| -> Result<(), Bad> {
             if o[a..b] != p[a..b] {
                 let k = (a..b).find(|&k| o[k] != p[k]).unwrap_or(a);
@@ -462,8 +629,35 @@ pub fn resolve(spec: &Spec, out: &[u8]) -> Result<Resolved, Bad> {
                 3 => r.max_off24 = r.max_off24.max(val as u32),
                 _ => r.max_off32 = r.max_off32.max(val as u32),
             }
-            let target = pos + l.adj as u64 + val;
+            let mut target = pos + l.adj as u64 + val;
             r.links_followed += 1;
+            if promoted {
+                // the link must land on an extension record made for THIS lookup:
+                // format 1, extensionLookupType = the lookup's original type, Offset32 to the subtable
+                let (_, ty) = typed.unwrap_or((true, 0));
+                let e = target as usize;
+                let Some(rec) = out.get(e..e + 8) else {
+                    return Err(bad("extension-record-out-of-bounds", json!({"lookup_node": idx, "lookup_at": pos, "link": k, "record_at": e, "out_len": out.len()})));
+                };
+                let fmt = u16::from_be_bytes([rec[0], rec[1]]);
+                let ety = u16::from_be_bytes([rec[2], rec[3]]);
+                let off = u32::from_be_bytes([rec[4], rec[5], rec[6], rec[7]]);
+                if fmt != 1 {
+                    return Err(bad("extension-record-format", json!({"lookup_node": idx, "lookup_at": pos, "link": k, "record_at": e, "format_found": fmt, "record": vf_core::hex(rec)})));
+                }
+                if ety != ty {
+                    return Err(bad(
+                        "extension-type-differs",
+                        json!({"lookup_node": idx, "lookup_at": pos, "link": k, "record_at": e, "lookup_type_written": ty, "extension_lookup_type_found": ety,
+                               "subtable_node": l.to, "note": "the subtable of a promoted lookup is reached through an extension record that carries another lookup's type"}),
+                    ));
+                }
+                if ext_seen.insert(e) {
+                    covered += 8;
+                }
+                r.max_off32 = r.max_off32.max(off);
+                target = e as u64 + off as u64;
+            }
             stack.push((l.to, target, idx, k));
         }
     }
@@ -471,6 +665,34 @@ pub fn resolve(spec: &Spec, out: &[u8]) -> Result<Resolved, Bad> {
         // cannot happen when every node is reachable in the spec and all links
         // resolved, kept as a direct statement of "every reachable object is present"
         return Err(bad("reachable-object-absent", json!({"node": m})));
+    }
+    r.extension_records = ext_seen.len();
+    if spec.has_typed_nodes() {
+        // (subtable node) -> lookups linking to it
+        let mut users: HashMap<usize, Vec<usize>> = HashMap::new();
+        for (i, n) in spec.nodes.iter().enumerate() {
+            if spec.lookup_type(i).is_some() {
+                for l in &n.links {
+                    let u = users.entry(l.to).or_default();
+                    if !u.contains(&i) {
+                        u.push(i);
+                    }
+                }
+            }
+        }
+        for u in users.values() {
+            for (a, i) in u.iter().enumerate() {
+                for j in &u[a + 1..] {
+                    let (pi, pj) = (promoted_node[*i], promoted_node[*j]);
+                    if pi == Some(true) && pj == Some(true) && spec.lookup_type(*i) != spec.lookup_type(*j) {
+                        r.promoted_sharing_across_types += 1;
+                    }
+                    if pi.is_some() && pj.is_some() && pi != pj {
+                        r.shared_between_promoted_and_not = true;
+                    }
+                }
+            }
+        }
     }
     r.placements = seen.len();
     r.duplicates = seen.len() - spec.nodes.len();
